@@ -63,6 +63,11 @@ func ReadHeader(r io.Reader) (h Header, err error) {
 	// Overwrite first 2 bytes that was read before.
 	bts = bts[:extra]
 	_, err = io.ReadFull(r, bts)
+	if err == io.EOF {
+		// First two bytes of the header are already read, thus clean EOF is
+		// not possible here.
+		err = io.ErrUnexpectedEOF
+	}
 	if err != nil {
 		return h, err
 	}
